@@ -418,6 +418,13 @@ func redisConcCommutative(c *Ctx, s *cmdSched, kind string) {
 		ops := opsPer[w]
 		workers[w] = func() { k.eq.feed(c, h, ops) }
 	}
+	if c.rng.Intn(3) == 0 {
+		// an emptied script cache (restart, failover, SCRIPT FLUSH): every first EVALSHA is answered
+		// NOSCRIPT and the client sends the script text again - two round trips per update, which
+		// other clients' commands may now separate
+		gostatix.VerifRedisClient().ScriptFlush(context.Background())
+		c.branch("script-cache-flushed")
+	}
 	order := s.runScheduled(c.rng.Int63(), nil, workers)
 	c.op(kind + ".concurrent-run")
 	k.eq.feed(c, seqH, all)
